@@ -194,6 +194,10 @@ def features_of(wb):
             ti = hdr.index("type") if "type" in hdr else None
             for r in sh["rows"]:
                 t = r[ti] if ti is not None and ti < len(r) else None
+                if isinstance(t, str) and t.strip().lower().startswith("osm"):
+                    out.add("osm")
+                if any(isinstance(c, str) and "search(" in c for i, c in enumerate(r) if i < len(hdr) and isinstance(hdr[i], str) and "appearance" in hdr[i].lower()):
+                    out.add("search")
                 if isinstance(t, str) and t.replace("_", " ").startswith("begin group"):
                     for i, h in enumerate(hdr):
                         if i < len(r) and r[i] is not None and isinstance(h, str) and (h.split("::")[0].strip().lower() in LOGIC_COLS or h.lower().startswith("bind::")):
